@@ -1,20 +1,16 @@
-(** C06 — session end (work package svsess). Results about Msv (Model/Sv.v), all relative to the invariant theorem
-    [T_svinv_reach] of work package svinv where an invariant of the pre-state is used:
+(** C06 — session end (work packages svsess, svfix). Results about Msv (Model/Sv.v), all relative to the invariant theorem
+    [T_svinv_reach] (proved in Proofs/SvInv.v; closed versions in Proofs/SvAll.v):
 
-      C06_leak_refuted            the witness of the recorded finding F-LEAK                        (SvSessWit.v; as stated)
-      C06_once_from_inv           T_svinv_reach → T_C06_once                                        (SvSessDs.v;  as stated)
-      C06_noclear'_from_inv       T_svinv_reach → T_C06_noclear'     + C06_noclear_refuted          (SvSessNc.v, SvSessWit.v)
-      C06_frame'_from_inv         T_svinv_reach → T_C06_frame'       + C06_frame_refuted            (SvSessFrame.v)
-      C06_release_all'_from_inv   T_svinv_reach → T_C06_release_all' + C06_release_all_refuted      (this file)
+      C06_leak_refuted            the witness of the recorded finding F-LEAK                        (SvSessWit.v)
+      C06_once_from_inv           T_svinv_reach → T_C06_once                                        (SvSessDs.v)
+      C06_noclear_from_inv        T_svinv_reach → T_C06_noclear      + C06_noclear_race_closed      (SvSessNc.v, SvSessWit.v)
+      C06_frame_from_inv          T_svinv_reach → T_C06_frame        + C06_frame_iff_refuted        (SvSessFrame.v)
+      C06_release_all_from_inv    T_svinv_reach → T_C06_release_all                                 (this file)
 
-    Three target statements of SvDefs.v are false of the model as stated; each corrected statement is given next to a
-    machine-checked counterexample of the original:
-      - T_C06_noclear: no reachability premise; and a genuine race (F-NOCLEAR-RACE) at pc VDsDestroy: see SvSessNc.v;
-      - T_C06_frame: the unit freed by the session end is handed to a parked Lock call of another session, whose key
-        becomes live in that step (intended behaviour): see SvSessFrame.v;
-      - T_C06_release_all: its premise lets the finished DestroySession be a SECOND goroutine for the same session (the one
-        the shutdown's network stop starts, which sees the shutdown flag and returns at once) while the goroutine that did
-        destroy the session is still in its unlock loop: see below. *)
+    All target statements of SvDefs.v hold of the model as stated. [T_C06_release_all] holds with its original premise
+    ([∃ tid', ev_in (SvSessDestroy tid' sid) s]): a connection ends once (client disconnect or the closer's network stop,
+    which now delivers a ConnEnd only for connections still open), so there is one DestroySession goroutine per session
+    ([vi_ds_unique]) and the goroutine that destroyed the session is the finished one. *)
 From Coq Require Import Lia ZifyBool ZifyNat.
 From Ldlm Require Import Model.Base Model.Err Model.Sv Proofs.SvDefs Proofs.SeqLemmasKey
   Proofs.SvSessBase Proofs.SvSessThr Proofs.SvSessLk Proofs.SvSessDs Proofs.SvSessSe Proofs.SvSessRel1 Proofs.SvSessRel2 Proofs.SvSessRel3.
@@ -23,9 +19,8 @@ From RecordUpdate Require Import RecordSet.
 Import RecordSetNotations.
 Local Open Scope Z_scope.
 
-(** once the DestroySession that destroyed the session (and did clear) has run to its end: every hold acquired in that
-    session is released or is being released by its own expiry — unless its entry was written after the destroy (F-LEAK) *)
-Definition T_C06_release_all' : Prop := ∀ cfg s tid t sid,
+(** the form the accounting invariant gives directly: the finished goroutine is the one that destroyed the session *)
+Definition T_C06_release_all_self : Prop := ∀ cfg s tid t sid,
   vreach cfg s → sc_noclear cfg = false → v_thr s !! tid = Some t → st_op t = SConnEnd sid → st_pc t = VEnd →
   ev_in (SvSessDestroy tid sid) s → add_after_destroy sid (v_trace s) = false → v_mgrshut s = false →
   ∀ tid' t' n k z, v_thr s !! tid' = Some t' → acquirer t' sid n k z → st_pc t' = VFin (SResp true None) →
@@ -61,7 +56,7 @@ Proof.
   - by apply a_inv_step.
 Qed.
 
-Theorem C06_release_all'_from_inv : T_svinv_reach → T_C06_release_all'.
+Lemma C06_release_all_self_from_inv : T_svinv_reach → T_C06_release_all_self.
 Proof.
   intros Hinv cfg s tid t sid Hr Hnc Ht Hop Hpc Hev Haad Hsh tid' t' n k z Ht' Hacq Hpc'.
   destruct (rel_inv_reach Hinv cfg s Hnc Hr) as [_ _ _ _ HA].
@@ -69,23 +64,26 @@ Proof.
   rewrite Hpc in Hin. simpl in Hin. by apply elem_of_nil in Hin.
 Qed.
 
-(** the counterexample to [T_C06_release_all] as stated: thread 1002 is the ConnEnd goroutine of session A started by the
-    shutdown's network stop (it returns at once: shutdown flag set); thread 1000, which destroyed the session, has not yet
-    unlocked its hold *)
+Theorem C06_release_all_from_inv : T_svinv_reach → T_C06_release_all.
+Proof.
+  intros Hinv cfg s tid t sid Hr Hnc Ht Hop Hpc [tid0 Hev] Haad Hsh.
+  destruct (rel_inv_reach Hinv cfg s Hnc Hr) as [_ _ HS _ _].
+  destruct (si_destroy _ HS tid0 sid Hev) as (_ & t0 & Ht0 & Hop0).
+  assert (tid0 = tid) as -> by (eapply (vi_ds_unique _ _ (Hinv _ _ Hr)); eauto).
+  exact (C06_release_all_self_from_inv Hinv cfg s tid t sid Hr Hnc Ht Hop Hpc Hev Haad Hsh).
+Qed.
+
+(** the premises are satisfiable, and the conclusion is not vacuous: session A holds n, its connection ends,
+    DestroySession runs to its end; the hold is released *)
 Definition rel_sched : list sitem :=
   [VConnect w_sid; VCall 1 (STry w_sid w_n w_k 1 None); VRun 1; VRun 1;   (* A holds n, answered *)
-   VConnEnd w_sid; VRun 1000;                                              (* DestroySession(A): flag read (not shutting down) *)
-   VSignal; VRun 1001; VRun 1001;                                          (* SIGTERM: PrepareShutdown; network stop: ConnEnd(A) again -> 1002 *)
-   VRun 1002;                                                              (* sees the flag: returns *)
-   VRun 1000].                                                             (* 1000: sessionMgr.DestroySession -> loop over [hold] *)
-
-Theorem C06_release_all_refuted : ∃ cfg s tid t sid tid' t' n k z,
+   VConnEnd w_sid; VRun 1000; VRun 1000; VRun 1000; VRun 1000].            (* DestroySession(A): flag, destroy, timer removal, unlock *)
+Example C06_release_all_premises : ∃ cfg s tid t sid tid' t' n k z,
   vreach cfg s ∧ sc_noclear cfg = false ∧ v_thr s !! tid = Some t ∧ st_op t = SConnEnd sid ∧ st_pc t = VEnd ∧
   (∃ tid0, ev_in (SvSessDestroy tid0 sid) s) ∧ add_after_destroy sid (v_trace s) = false ∧ v_mgrshut s = false ∧
-  v_thr s !! tid' = Some t' ∧ acquirer t' sid n k z ∧ st_pc t' = VFin (SResp true None) ∧
-  slive s n k ∧ ¬ expiry_pending s n k.
+  v_thr s !! tid' = Some t' ∧ acquirer t' sid n k z ∧ st_pc t' = VFin (SResp true None) ∧ ¬ slive s n k.
 Proof.
-  exists (SvCfg false true), (vrun (SvCfg false true) rel_sched), 1002%nat, (SThread (SConnEnd w_sid) VEnd None), w_sid,
+  exists (SvCfg false true), (vrun (SvCfg false true) rel_sched), 1000%nat, (SThread (SConnEnd w_sid) VEnd None), w_sid,
     1%nat, (SThread (STry w_sid w_n w_k 1 None) (VFin (SResp true None)) None), w_n, w_k, 1.
   split_and!.
   - apply vrun_reach. vm_compute. reflexivity.
@@ -99,9 +97,17 @@ Proof.
   - vm_compute. reflexivity.
   - exists None. by left.
   - reflexivity.
-  - exists (ALock 1 [w_k] []). split; [vm_compute; reflexivity|]. simpl. apply elem_of_list_here.
-  - intros (tid & t & id & tm & Ht & Hop & _).
-    assert (Hall : thr_all (vrun (SvCfg false true) rel_sched) (λ _ t, match st_op t with SExpire _ => false | _ => true end) = true)
-      by (vm_compute; reflexivity).
-    pose proof (thr_all_sound _ _ Hall _ _ Ht) as H. simpl in H. by rewrite Hop in H.
+  - intros (a & Ha & Hk). vm_compute in Ha. injection Ha as <-. simpl in Hk. by apply elem_of_nil in Hk.
 Qed.
+
+(** with a shutdown racing the session end there still is one DestroySession goroutine for the session: the closer's
+    network stop starts none for a connection that has already ended (the earlier model started a second one, which
+    refuted this statement) *)
+Definition rel_sched2 : list sitem :=
+  [VConnect w_sid; VCall 1 (STry w_sid w_n w_k 1 None); VRun 1; VRun 1;
+   VConnEnd w_sid; VRun 1000;
+   VSignal; VRun 1001; VRun 1001].
+Example C06_one_connend_goroutine :
+  let s := vrun (SvCfg false true) rel_sched2 in
+  vreach (SvCfg false true) s ∧ v_thr s !! 1002%nat = None ∧ (st_pc <$> v_thr s !! 1001%nat) = Some VShTimers.
+Proof. cbv zeta. split_and!; [apply vrun_reach|..]; vm_compute; reflexivity. Qed.
